@@ -49,6 +49,14 @@ S3 == {Struct("S", <<Embed("Emb", how, Emb), Field("Z", "", {}, Prim("bool"))>>)
       \cup {Struct("S", <<Field("A", "", {}, Prim("string")), Embed("Emb", how, Emb)>>) : how \in {"value", "ptr"}}      \* outer A shadows Emb.A (Go name)
       \cup {Struct("S", <<Embed("Emb", how, Emb), Field("A", "", {}, Prim("string"))>>) : how \in {"value", "ptr"}}
       \cup {Struct("S", <<Embed("Emb", "value", Emb), Embed("Emb2", "value", Emb2)>>)}                                    \* A ambiguous at depth 1: dropped
+\* one named struct type reached several times (value first / pointer first / under containers):
+\* every occurrence is inferred on its own terms (a pointer occurrence admits null whatever came before)
+S5 == {Struct("S", <<Field("A", "", {}, Inner), Field("B", "", {}, Ptr(Inner))>>),
+       Struct("S", <<Field("A", "", {}, Ptr(Inner)), Field("B", "", {}, Inner), Field("C", "", {}, Slice(Ptr(Inner)))>>),
+       Struct("S", <<Field("A", "", {}, Inner), Field("C", "", {}, Slice(Ptr(Inner))), Field("M", "", {}, MapOf(Ptr(Inner)))>>),
+       Struct("S", <<Field("A", "", {}, Slice(Inner)), Field("B", "b", {"omitempty"}, Ptr(Inner)), Field("C", "", {}, Ptr(Inner))>>),
+       Struct("S", <<Embed("Emb", "value", Emb), Field("P", "", {}, Ptr(Emb)), Field("Q", "", {}, Slice(Ptr(Emb)))>>),
+       Slice(Struct("S", <<Field("A", "", {}, Inner), Field("B", "", {}, Ptr(Inner))>>))}
 \* one JSON name claimed by two fields (dominant-field rule on JSON names), and a tagged embedded field
 S4 == {Struct("S", <<Field("P", "b", {}, Prim("int8")), Embed("Emb", "value", Emb)>>),          \* outer "b" (depth 0) vs Emb.B "b" (depth 1)
        Struct("S", <<Embed("Emb", "value", Emb), Field("P", "b", {}, Prim("int8"))>>),
@@ -102,7 +110,7 @@ OCases == {[t |-> t, ign |-> ign, tsn |-> "none"] : t \in ODesc, ign \in BOOLEAN
 
 Types(z) ==
   CASE Family = "T" -> IF K >= 2 THEN UNION {T1, T2, T3} ELSE UNION {T1, T2}
-    [] Family = "S" -> IF K >= 2 THEN UNION {S1, S2, S3} ELSE UNION {S1, S3}
+    [] Family = "S" -> IF K >= 2 THEN UNION {S1, S2, S3, S5} ELSE UNION {S1, S3, S5}
     [] Family = "X" -> S4
     [] Family = "O" -> OCases
 
